@@ -25,16 +25,22 @@ DEFAULT_LIMITS = (256, 256, 1024, 1 << 20, 0)        # maxDepth maxAttrsPerEleme
 TLC_SLOTS = threading.Semaphore(7)
 DEVS = ["Dev_EndNoCompare", "Dev_EofNoCheck", "Dev_EndOnEmpty", "Dev_DepthAfter"]
 
-STARTS = ["Sa", "Sb", "Sn", "Sl", "SaW", "Sa1", "Sa2", "Sa3", "Sa4", "Sa5", "SaNl"]
+STARTS = ["Sa", "Sb", "Sn", "Sl", "SaW", "Sa1", "Sa2", "Sa3", "Sa4", "Sa5", "Sa6", "Sa7", "SaNl"]
 U = ["U%d" % i for i in range(1, 21)]
 # name, alphabet, First (None = whole alphabet), (MaxLen, MaxDead) quick, thorough
 CONFIGS = [
     ("balance", ["Sa", "Sb", "Ea", "Eb", "Ma", "Tx"], None, (5, 1), (7, 1)),
     ("names", ["Sa", "Sn", "Sl", "Ea", "En", "El", "EaW", "SaW", "MaW", "EaN", "SaNl"], None, (4, 1), (5, 1)),
-    ("attrs", ["Sa1", "Sa2", "Sa3", "Sa4", "Sa5", "Ma1", "Mb2", "SaU", "SaD", "SaLt", "Ea", "Tx"], None, (3, 1), (4, 1)),
+    ("attrs", ["Sa1", "Sa2", "Sa3", "Sa4", "Sa5", "Ma1", "Mb2", "SaU", "SaD", "SaLt", "Sa6", "Ma6", "Sa7", "Ea", "Tx"], None, (3, 1), (4, 1)),
     ("textA", ["Sa", "Ea", "Tx", "Tsp", "Tnl", "Tlt", "Tgt", "Tamp", "Tq", "Tap", "TA", "Thx", "TE", "Temo"], ["Sa"], (4, 1), (5, 1)),
     ("textB", ["Sa", "Ea", "Tx", "Ty", "Ttab", "T9", "T7f", "T80", "T7ff", "T800", "Tfffd", "T10000", "T10ffff", "Traw", "Tgtraw", "Tquot"], ["Sa"], (4, 1), (5, 1)),
     ("textC", ["Sa", "Ea", "Tx", "Tund", "Tent", "Text", "Tbad", "Tsur", "T0", "T110000", "Tbig", "TX", "Tempty", "Tcdend", "D2", "D3"], ["Sa", "D2", "D3"], (4, 1), (4, 2)),
+    # (the random trees get only the short padded forms: up to 12 adjacent text pieces merge into ONE token and XmlText!Decode /
+    # HexOf recurse once per byte - a TLC simulation worker that overflows its stack dies silently and TLC waits for ever)
+    # character references in non-shortest forms: leading zeros (up to 32 and 64 digits), hex digits of either case, the largest code
+    # point in its longest spellings, next to other text and to a stray ';' (attribute values: Sa6 Ma6 Sa7 in "attrs")
+    ("textD", ["Sa", "Ea", "Tx", "Tsp", "Tz4", "Tz8", "Tz8l", "Tzd8", "Tz41", "Tzmax", "Tzmaxl", "Tzdmax", "Tz32", "Tzd32", "Tz64", "Tzmix", "Tz0", "Tz110"],
+     ["Sa"], (4, 1), (5, 1)),
     ("misc", ["Sa", "Ea", "Ma", "C1", "C0", "C2", "C3", "K1", "K0", "K2", "K3", "P1", "P0", "P2", "P3", "Tx", "Tsp"], None, (3, 1), (4, 1)),
     # terminator look-alikes directly before the real terminator (runs of "]" of either parity, "?" before "?>")
     ("terms", ["Sa", "Ea", "C2", "C4", "C5", "C6", "C7", "C8", "P4", "P5", "Tx"], None, (3, 1), (4, 1)),
@@ -44,7 +50,7 @@ CONFIGS = [
 ]
 TREE_ALPHABET = ["Sa", "Sb", "Sn", "Sl", "Ea", "Eb", "En", "El", "Ma", "Mb", "SaW", "EaW", "MaW", "Sa1", "Sa2", "Sa3", "Sa4", "Sa5",
                  "Ma1", "Mb2", "SaNl", "Tx", "Ty", "Tsp", "Tnl", "Tlt", "Tgt", "Tamp", "Tq", "Tap", "TA", "Thx", "TE", "Temo", "T9",
-                 "T7ff", "T800", "T10000", "Traw", "Tgtraw", "Tquot", "C1", "C0", "C2", "C3", "C4", "C5", "C7", "K1", "K0", "K2", "K3", "P1", "P0",
+                 "T7ff", "T800", "T10000", "Tz8", "Tz8l", "Tzd8", "Tzmax", "Sa6", "Ma6", "Sa7", "Traw", "Tgtraw", "Tquot", "C1", "C0", "C2", "C3", "C4", "C5", "C7", "K1", "K0", "K2", "K3", "P1", "P0",
                  "P2", "P3", "P5", "X1", "X2", "D1", "D2", "D4", "Tent", "Tund"]
 PLAIN = {"Sa", "Sb", "Ea", "Eb", "Ma", "Mb", "Tx", "Ty"}
 FIELDS = ("cls", "xptoks", "xdtoks", "domcls", "dmax", "amax", "nameHi", "nameLo", "textHi", "textLo", "cntHi", "cntLo", "feat")
@@ -146,6 +152,53 @@ def generate(ck, name, alphabet, first, maxlen, maxdead, only_matching=False, si
     return cases, r
 
 
+HUGE = 1 << 30
+# The documents are tiny (<= a few hundred bytes): a single allocation beyond 256 MB can only come from a limit VALUE used as
+# a size.  ASan then stops the case at once (allocation-size-too-big, reported as abnormal termination) instead of mapping and
+# poisoning tens of GB per worker.  On code that does not size allocations by the limits the cap is never reached; on code that
+# does, the settings >= 2^57 of XmlLimits.tla fail on any machine (std::length_error / std::bad_alloc), cap or no cap.
+ASAN = "detect_leaks=0:max_allocation_size_mb=256"
+
+
+def generate_limits(ck):
+    """the extreme settings of the five limits: all states of spec/parsers/XmlLimits.tla -> [(kind, (5 decimal strings), (5 ints the
+    oracle compares with: exact below 2^30, 2^30 above))]"""
+    d = os.path.join(ck.work, "gen_limits")
+    os.makedirs(d, exist_ok=True)
+    out = os.path.join(d, "limits.csv")
+    if os.path.exists(out):
+        os.remove(out)
+    cfg = os.path.join(d, "XmlLimits.cfg")
+    vf.write_cfg(cfg, constants={"OutFile": '"%s"' % out}, invariants=["TypeOK", "CaseOut"])
+    with TLC_SLOTS:
+        r = tlc_twice(lambda: vf.run_tlc(os.path.join(SPECDIR, "XmlLimits.tla"), cfg, tag="C14_gen_limits", workers=1, lib_dirs=[SPECDIR],
+                                         timeout=600, coverage=True))
+    if r.error or r.violated:
+        raise vf.Infra("TLC failed on XmlLimits.tla: %s %s" % (r.violated, r.error))
+    settings, nlines = {}, 0
+    with open(out) as f:
+        for ln in f:
+            nlines += 1
+            p = [x.strip('"') for x in ln.rstrip("\n").split("|")]
+            if len(p) != 11:
+                raise vf.Infra("malformed limit line from TLC: " + ln[:200])
+            dec, ab = tuple(p[1:6]), tuple(int(x) for x in p[6:11])
+            for a, b in zip(dec, ab):       # infrastructure: the clamp of the specification is the clamp of the driver
+                if min(int(a), HUGE) != b:
+                    raise vf.Infra("XmlLimits.tla: abs of %s is %d" % (a, b))
+            settings.setdefault(dec, (p[0], dec, ab))
+    os.remove(out)
+    kinds = {k for k, _, _ in settings.values()}
+    if nlines != r.distinct or len(settings) < 200 or not kinds >= {"one", "all", "allbutone"}:
+        raise vf.Infra("XmlLimits.tla: %d settings for %d states, kinds %s" % (len(settings), r.distinct, sorted(kinds)))
+    for a in ("One", "All", "AllButOne"):
+        if r.coverage.get(a, (0, 0))[0] == 0:
+            raise vf.Infra("self-test: action %s of XmlLimits.tla never taken" % a)
+    ck.states += r.distinct
+    ck.transitions += r.generated
+    return sorted(settings.values())
+
+
 # ------------------------------------------------------------------------------------------------ set-up cross-check
 def expat_ref(bs):
     toks, cd, st = [], [], {"cdata": False}
@@ -208,7 +261,8 @@ def cross_check(name, cases):
 
 # ------------------------------------------------------------------------------------------------ driver + oracle
 def case_line(cid, flags, lim, bs):
-    return "D %d %s %d %d %d %d %d %s" % (cid, flags or "-", lim[0], lim[1], lim[2], lim[3], lim[4], bs.hex() or "-")
+    """lim: five limits, ints or decimal strings (size_t up to SIZE_MAX, see XmlLimits.tla)"""
+    return "D %d %s %s %s %s %s %s %s" % (cid, flags or "-", lim[0], lim[1], lim[2], lim[3], lim[4], bs.hex() or "-")
 
 
 def run_driver(ck, tag, lines):
@@ -217,7 +271,7 @@ def run_driver(ck, tag, lines):
     with open(cpath, "w") as f:
         f.write("\n".join(lines) + "\n")
     rc, out = vf.run_driver("drv_xml.asan", ["run", cpath, opath, 2000, 12], timeout=1500,
-                            env={"ASAN_OPTIONS": "detect_leaks=0", "UBSAN_OPTIONS": "print_stacktrace=1"})
+                            env={"ASAN_OPTIONS": ASAN, "UBSAN_OPTIONS": "print_stacktrace=1"})
     if rc != 0 or not re.search(r"cases=\d+ crashed=\d+ hung=\d+", out):
         raise vf.Infra("drv_xml failed: " + out[-2000:])
     return opath
@@ -300,7 +354,8 @@ def report(ck, tag, bad, crashes, lines, cases_by_id):
         text = lines[did] if did is not None and did < len(lines) else "?"
         if c is not None:
             text += " | " + c.lex
-        acc["bad"].append((tag, text, e, why, c.f[12] if c is not None else ""))
+        # the input class of the document says nothing about an exception caused by a limit value
+        acc["bad"].append((tag, text, e, why, c.f[12] if c is not None and not why.startswith("an exception escaped") else ""))
     for line, kind in crashes:
         acc["crash"].append((tag, line, kind))
 
@@ -333,7 +388,7 @@ def final_report(ck):
             w = line.split("|")[0].split()
             w[1] = "0"
             open(cp, "w").write(" ".join(w) + "\n")
-            vf.run_driver("drv_xml.asan", ["run", cp, op, 1, 1], timeout=120, env={"ASAN_OPTIONS": "detect_leaks=0"})
+            vf.run_driver("drv_xml.asan", ["run", cp, op, 1, 1], timeout=120, env={"ASAN_OPTIONS": ASAN})
             again = any(json.loads(x)["e"] in ("Crashed", "Hung") for x in open(op))
             ep = op + ".d/w0.err"
             err = open(ep, errors="replace").read()[:6000] if os.path.exists(ep) else ""
@@ -344,7 +399,9 @@ def final_report(ck):
         line, kind, err = confirmed[0]
         m = re.search(r"SUMMARY: (.*)", err)
         rp = ck.save_replay("sanitizer_or_hang", {"cases.txt": "\n".join(l for _, l, _ in crashes[:300]) + "\n", "sanitizer.txt": err})
-        ck.classify({"spec": "XmlBalanceTrace", "clause": "undefined behaviour" if kind == "Crashed" else "termination"},
+        abnormal = kind == "Crashed" and re.search(r"allocation-size-too-big|out-of-memory|terminate called|requested allocation size", err)
+        ck.classify({"spec": "XmlBalanceTrace", "clause": "abnormal termination (allocation failure / uncaught exception)" if abnormal
+                     else "undefined behaviour" if kind == "Crashed" else "termination"},
                     "%s on %d document(s) in %s, e.g. hex %s: %s" % (
                         "sanitizer abort / crash" if kind == "Crashed" else "parser does not return", len(crashes),
                         ", ".join(sorted({t for t, _, _ in crashes})), line.split("|")[0].split()[-1], m.group(1) if m else "see sanitizer.txt"), rp)
@@ -461,11 +518,13 @@ def run(ck):
             docs.append(c)
     lines, meta, by_id = [], {}, {}
 
-    def add(flags, lim, c, with_model):
+    def add(flags, lim, c, with_model, seen_as=None):
+        """lim: what the parser is given; seen_as: the same limits as the oracle compares them (XmlLimits.tla: abs)"""
         i = len(lines)
         lines.append(case_line(i, flags, lim, c.bytes if isinstance(c, Case) else c))
         if with_model:
             m = c.model()
+            lim = seen_as or lim
             m.update(ld=lim[0], la=lim[1], ln=lim[2], lt=lim[3], lk=lim[4])
             meta[i] = m
             by_id[i] = c
@@ -494,6 +553,34 @@ def run(ck):
             if min(lim) >= 0:
                 add("", lim, c, True)
                 nlim += 1
+    # extreme settings of every limit (all states of XmlLimits.tla: 0, 1, 2^31, 2^32, 2^57..2^63, SIZE_MAX ...; one limit at a time,
+    # all five, all but one) on one document of every shape - incl. documents that do not use the limited feature at all
+    settings = generate_limits(ck)
+    shapes = {}
+    for c in rng.sample(wf, len(wf)):
+        dmax, amax, thi = c.f[4], c.f[5], c.f[8]
+        kinds = frozenset(t[0] for t in c.f[1].split(";") if t)
+        prolog = any(x[0] in "XD" for x in c.lex.split())
+        shapes.setdefault((min(dmax, 3), min(amax, 3), thi > 0, kinds, prolog, c.f[12]), c)
+    shape_docs = sorted(shapes.values(), key=lambda c: (c.cfg, len(c.bytes), c.bytes))
+    keep = 160 if thorough else 36
+    if len(shape_docs) > keep:
+        # the plainest shapes always (no attribute / no text / no nesting: the limited feature is not used), the rest at random
+        plain = [c for c in shape_docs if c.f[5] == 0 or c.f[8] == 0][:keep // 3]
+        rest = [c for c in shape_docs if c not in plain]
+        shape_docs = plain + rng.sample(rest, keep - len(plain))
+    if not any(c.f[5] == 0 for c in shape_docs) or not any(c.f[5] >= 2 for c in shape_docs) or not any(c.f[8] == 0 for c in shape_docs) \
+            or not any(c.f[8] > 0 for c in shape_docs) or not any(c.f[4] >= 2 for c in shape_docs):
+        raise vf.Infra("extreme limits: the documents do not cover the shapes (with/without attributes, text, nesting)")
+    next_ = 0
+    for c in shape_docs:
+        for kind, dec, ab in settings:
+            add("", dec, c, True, seen_as=ab)
+            next_ += 1
+    nlim += next_
+    ck.cov["XmlLimits"] = len(settings)
+    ck.note("extreme limits: %d settings of XmlLimits.tla (%d with a value >= 2^30) x %d documents of distinct shapes" % (
+        len(settings), sum(1 for _, _, ab in settings if max(ab) >= HUGE), len(shape_docs)))
     nmut = 60000 if thorough else 8000
     src = [c for c in docs if c.cls in ("wf", "unbal") and 3 <= len(c.bytes) <= 120]
     if not src:
@@ -537,7 +624,7 @@ def selftest(ck, docs):
     def api(c, **over):
         m = c.model()
         e = dict(e="Api", id=0, n=len(c.bytes), off=0, pok=True, ptoks=m["xptoks"], sok=True, stoks=m["xptoks"], dok=True, dtoks=m["xdtoks"],
-                 pdtoks=m["xdtoks"], decok=True, expanded=False)
+                 pdtoks=m["xdtoks"], decok=True, expanded=False, exc="")
         e.update(m); e.update(L); e.update(over)
         return e
 
@@ -558,6 +645,10 @@ def selftest(ck, docs):
         corrupt.append([api(c, dtoks=c.f[2] + ";T:78", pdtoks=c.f[2] + ";T:78")])                            # DOM differs from model
         corrupt.append([api(c, expanded=True)])
         corrupt.append([api(c, ld=c.f[4] - 1)])                                                              # accepted beyond depth
+        corrupt.append([api(c, dok=False, dtoks="", exc="dom:std::length_error")])                           # an exception escaped
+        good.append([api(c, ld=HUGE, la=HUGE, ln=HUGE, lt=HUGE, lk=HUGE)])                                   # "no limit" everywhere
+        corrupt.append([api(c, ld=HUGE, la=HUGE, ln=HUGE, lt=HUGE, lk=HUGE, pok=False, sok=False, dok=False,
+                            ptoks="", stoks="", dtoks="", pdtoks="")])                                       # rejected under huge limits
     for c in unb:
         good.append([api(c, pok=False, sok=False, dok=False, ptoks="", stoks="", dtoks="", pdtoks="", off=1)])
         corrupt.append([api(c, ptoks="", stoks="", dtoks="", pdtoks="")])                                    # unbalanced accepted
@@ -569,9 +660,16 @@ def selftest(ck, docs):
     corrupt.append(doc([("S", "a"), ("S", "b"), ("E", "b"), ("E", "a")], ld=1))   # beyond depth accepted
     corrupt.append(doc([("S", "a"), ("E", "a")], lk=1))                 # beyond token limit accepted
     corrupt.append(doc([("S", "a")], ok=False, off=21))                 # offset outside
+    thrown = doc([("S", "a")], ok=False, off=0, la=HUGE); thrown[-1]["exc"] = "pull:std::bad_alloc"
+    corrupt.append(thrown)                                              # next() threw
+    quiet = doc([("S", "a"), ("E", "a")], la=HUGE, ld=HUGE); quiet[-1]["exc"] = ""
+    good.append(quiet)
     bad_in = doc([("S", "a"), ("E", "a")]); bad_in[1]["in"] = False
     corrupt.append(bad_in)
     good.append([dict(e="Dec", raw=list(b"a&lt;&#x20AC;"), ok=True, out=list("a<€".encode()))])
+    good.append([dict(e="Dec", raw=list(b"&#x0001F4a9;&#00008364;;"), ok=True, out=list("\U0001F4A9\u20ac;".encode()))])
+    corrupt.append([dict(e="Dec", raw=list(b"&#x0001F4A9;"), ok=False, out=[])])            # padded reference not decoded
+    corrupt.append([dict(e="Dec", raw=list(b"&#0000000065;"), ok=True, out=list(b"B"))])
     good.append([dict(e="Dec", raw=list(b"&foo;"), ok=False, out=[])])
     corrupt.append([dict(e="Dec", raw=list(b"&gt;"), ok=True, out=list(b"<"))])
     corrupt.append([dict(e="Dec", raw=list(b"&#65;"), ok=False, out=[])])
